@@ -1189,7 +1189,9 @@ static void struct_initializer1(Token **rest, Token *tok, Initializer *init) {
 
 // struct-initializer2 = initializer ("," initializer)*
 static void struct_initializer2(Token **rest, Token *tok, Initializer *init, Member *mem) {
-  bool first = true;
+  // When called to continue after a designated member, `tok` is at the
+  // comma that follows that member's initializer.
+  bool first = (mem == init->ty->members);
 
   for (; mem && !is_end(tok); mem = mem->next) {
     Token *start = tok;
